@@ -28,7 +28,10 @@ end
 /-- `_opacity(el)` -/
 def opacity (n : Node) : Except PyErr Float :=
   match n.getAttr "opacity" with
-  | some v => do let f ← pyFloat v; pure (clamp01 f)
+  | some v => do
+    let f ← pyFloat v
+    if f != f then throw .valueError     -- "nan": rejected, no comparison can place it in [0, 1]
+    pure (clamp01 f)
   | none => .ok 1.0
 
 /-- `_is_removable_group(el)` -/
